@@ -12,6 +12,8 @@ import TV.ShapeOK.SafeMap
 #print axioms TV.C07.pinned_C07_nil_interface_panics
 #print axioms TV.C07.pinned_C07_getOrAdd_not_sound
 #print axioms TV.C07.pinned_C07_history_rejected
+#print axioms TV.C07.C07_lincheck_sound
+#print axioms TV.C07.C07_lincheck_iff
 #print axioms TV.ShapeOK.SafeMap.discipline
 #print axioms TV.ShapeOK.SafeMap.sections
 #print axioms TV.ShapeOK.SafeMap.getOrAdd_rechecks
